@@ -32,6 +32,21 @@ CLAIMED = {
  "C25": ("exploration", "AST-vs-constructor differential evaluation through Query/EvaluateDataBlockMetadata + JSON round-trip monitor",
          "Trees built through the public constructors and builder sequences are compared, row by row and block by block, with the boolean combination the caller wrote (harness AST with reference leaf semantics); every expression and Query is round-tripped through encoding/json (same verdicts, stable bytes).",
          "Builder orders whose meaning is unspecified (chained calls before Match) carry no verdict; strings valid UTF-8.", "6/C25"),
+ "C20": ("exploration", "consumer-script monitor over the real cursor with fault/delay plans at instrumented stores and tagged schedule points, under the race detector",
+         "Hundreds of generated Next/cancel/Close/concurrent-Close scripts with injected OpenFile/Read/Seek/iterator failures and PRNG delays run against started, never-started and stopped engines; the terminal state (sticky false, nil Row, Err classification by happens-before, every reached failure reported, Close nil/idempotent/not changing a decided state) is checked per script; blocked scripts are decided by a state-based stuck detector.",
+         "Err after the consumer's own Close accepts nil/joined errors/context error (documented). Race detector reports with a bloomsearch frame are violations.", "6/C20"),
+ "C21": ("exploration", "handle life-cycle / iterator / goroutine / slot monitors at the instant the cursor finishes, under the race detector",
+         "Same scripts as C20: when the final Next returned false or Close returned, every DataStore handle the query opened is closed exactly once, none was used after close or by two operations at once (atomic in-use flag plus plain shadow field for the race detector), the MetaStore iterator has returned; goroutines started by Query and the engine's slot gauge are polled to zero.",
+         "Goroutine exit polled up to 5 s (stable-state rule).", "6/C21"),
+ "C22": ("exploration", "in-flight Read gauge on the instrumented DataStore + bounded-progress monitor with stalled consumers, under the race detector",
+         "Concurrent queries over slow reads: max simultaneous DataStore reads never exceeds MaxQueryConcurrency (1..8); queries whose consumers never read are parked with full row channels and all other queries must still complete (stuck detector).",
+         "Gauge covers reads made by queries only (nothing else runs in the window).", "6/C22"),
+ "C23": ("exploration", "Stats-vs-inventory monitor after every finished query (clean, terminated and failing)",
+         "After Next returned false the per-block stats are checked: unique (file, offset), skipped blocks carry zero counters, blocks that produced returned rows are listed as processed, all-or-none per file against must/may, on clean completion processed counters equal the block's real row/byte counts, totals equal sums, RowsMatched equals rows returned. Runs on the C01 scenario stream and on the C20 scripts.",
+         "All-or-none only asserted for queries not terminated early.", "6/C23"),
+ "C24": ("exploration", "read/open log of the instrumented DataStore vs. pruning recomputed from the real filter bits",
+         "For each query, files whose file-level filters rule out the bloom tree must not be opened, row data of blocks ruled out by prefilter or block filters must not be read, condition-less queries must not touch a filter region, and every read must lie inside the file and the declared extents.",
+         "Only the bloom tree (not the regex guard) defines 'ruled out'; trees with unknown node kinds carry no verdict.", "6/C24"),
 }
 
 NOT_YET = "check not built yet in this session (design in DESIGN.md section 6); not claimed until its monitor exists and is silent on the unchanged tree"
